@@ -70,6 +70,14 @@ theorem include_stack_empty_after_end (s : Lex) (hb : s.bad = false) :
   simp only [stepLex, hb, Bool.false_eq_true, if_false, IncInv]
   exact ⟨trivial, trivial, Nat.le_refl _, Nat.zero_le _⟩
 
+/-- **lexer_flag_clear_after_start** — whatever the lexer's `function_flag` was left at by the previous compilation
+    (e.g. a file ending right after `(: name`), the first token of the next file is lexed with the flag clear. -/
+theorem lexer_flag_clear_after_start (s : Lex) (evs : List Ev) (hb : (runLex s evs).bad = false) :
+    (stepLex (runLex s evs) .lexStart).1.fnFlag = false := by
+  simp only [stepLex, hb, Bool.false_eq_true, if_false]
+
+example : (runLex Lex.init [.lexStart, .fnFlagSet, .lexEnd]).fnFlag = true := by decide
+
 /-- **yytext_in_bounds** — every write into `yytext[MAXLINE]` made while scanning a token of any length (the at most
     one unguarded leading character, the characters stored through SAVEC, and the terminating NUL written after the
     loop or after "Line too long") has an index below MAXLINE.  The bound used is the weakest SAVEC-style guard found in
